@@ -11,14 +11,20 @@ CASE_START = ("case",)
 MANIFEST = dict(
     text="Lean 4 theorems over code-shaped executable models of WEPDecrypter / SessionKeys (TKIP mixing, CCMP with the "
          "block cipher as a parameter) / WPA2Decrypter / RSNHandshakeCapturer: round trip against reference encryptors "
-         "written from IEEE 802.11 for all payloads, keys, IV/PN and header variants, reject-unless-tag-verifies, "
-         "no out-of-bounds access for any protected body, key learning over handshake histories; tied to the code by "
-         "differential correspondence (frames from an independent C++ encryptor over OpenSSL AES, hostile bodies of every "
-         "small length, ASan/UBSan) and by a spec oracle (the Lean reference encryptor/decapsulator itself).",
-    note="Trusted: Lean kernel + standard axioms; AES/SHA-1/MD5 themselves (OpenSSL / hashlib; the CCMP theorems hold "
-         "for every block function); hand-written models tied by correspondence; generator coverage bounds what the tie sees.",
-    technique="Lean 4 proof (XOR-stream involution, CCM refinement for arbitrary E, fault-explicit safety, invariants "
-              "over handshake histories) + model/impl correspondence + executable spec oracle",
+         "written from IEEE 802.11 for all payloads, keys, IV/PN and header variants (+HTC frames: known finding), "
+         "reject-unless-tag-verifies, no out-of-bounds access for any protected body; the key derivation is the IEEE PRF / "
+         "pairwise key hierarchy / EAPOL-Key MIC for every HMAC (a parameter); handshake capture and key learning for every "
+         "history of the grammar (M1+ [M2+ [M3+ [M4+]]])* with anything interleaved: the entry is the PTK of the last "
+         "completed attempt; the RSNEAPOL / Dot11Beacon parsing used is proved equal to the Wifi wire family's. Tied to the "
+         "code by differential correspondence (frames from an independent C++ encryptor over OpenSSL AES, hostile bodies "
+         "of every small length, malformed EAPOL / beacon streams, ASan/UBSan) and by a spec oracle that re-derives round "
+         "trips, handshake completion and PTKs from the frame bytes with the Lean specification.",
+    note="Trusted: Lean kernel + standard axioms; AES/SHA-1/MD5/PBKDF2 themselves (OpenSSL / hashlib; the CCMP theorems hold "
+         "for every block function, the key-derivation theorems for every keyed hash); hand-written models tied by "
+         "correspondence; generator coverage bounds what the tie sees.",
+    technique="Lean 4 proof (XOR-stream involution, CCM refinement for arbitrary E, fault-explicit safety, PRF / Min-Max "
+              "refinement for arbitrary HMAC, grammar-indexed invariant over handshake histories, model-to-wire-model "
+              "agreement) + model/impl correspondence + executable spec oracle",
     design="DESIGN.md §6 C09")
 
 
@@ -29,7 +35,7 @@ def hx(b):
 # ----------------------------------------------------------------------------- frame construction
 
 def mac_header(subtype, tods, fromds, a1, a2, a3, a4=b"", frag=0, seq=0, qos=0, prot=1, order=0,
-               retry=0, pwr=0, moredata=0, morefrag=0, dur=0):
+               retry=0, pwr=0, moredata=0, morefrag=0, dur=0, htc=bytes(4)):
     fc0 = (2 << 2) | (subtype << 4)
     fc1 = tods | fromds << 1 | morefrag << 2 | retry << 3 | pwr << 4 | moredata << 5 | prot << 6 | order << 7
     h = bytes([fc0, fc1]) + dur.to_bytes(2, "little") + a1 + a2 + a3 + (frag | seq << 4).to_bytes(2, "little")
@@ -37,6 +43,8 @@ def mac_header(subtype, tods, fromds, a1, a2, a3, a4=b"", frag=0, seq=0, qos=0, 
         h += a4
     if subtype & 8:
         h += qos.to_bytes(2, "little")
+        if order:
+            h += htc                    # +HTC: a QoS data frame with the Order bit carries an HT Control field
     return h
 
 
@@ -69,7 +77,7 @@ def rand_addr(rng, pool):
     return rng.choice(pool)
 
 
-def gen_header(rng, pool, bssid, qos_ok=True, force_ds=None):
+def gen_header(rng, pool, bssid, qos_ok=True, force_ds=None, htc_ok=False):
     tods, fromds = force_ds if force_ds is not None else rng.choice([(1, 0), (1, 0), (0, 1), (0, 1), (0, 0), (1, 1)])
     subtype = rng.choice([0, 0, 0, 8, 8, 8, 1, 2, 3] + ([9, 10, 11] if qos_ok else []))
     sta, other = rng.sample([a for a in pool if a != bssid], 2)
@@ -82,11 +90,12 @@ def gen_header(rng, pool, bssid, qos_ok=True, force_ds=None):
     else:
         a1, a2, a3 = bssid, sta, other
     a4 = rng.choice(pool)
-    order = rng.choice([0, 0, 0, 1]) if not (subtype & 8) else 0       # QoS + Order means an HT Control field: not modelled
+    # QoS + Order = +HTC (KF-C09-8: libtins does not know the HT Control field); only where the caller asks for it
+    order = rng.choice([0, 0, 0, 1]) if not (subtype & 8) else (1 if htc_ok and rng.random() < 0.04 else 0)
     h = mac_header(subtype, tods, fromds, a1, a2, a3, a4, frag=rng.choice([0, 0, rng.randrange(16)]),
                    seq=rng.randrange(4096), qos=rng.choice([0, rng.randrange(16), rng.getrandbits(16)]), prot=1,
                    order=order, retry=rng.getrandbits(1), pwr=rng.getrandbits(1), moredata=rng.getrandbits(1),
-                   morefrag=rng.getrandbits(1), dur=rng.getrandbits(16))
+                   morefrag=rng.getrandbits(1), dur=rng.getrandbits(16), htc=rng.choice([bytes(4), rand_bytes(rng, 4)]))
     return h
 
 
@@ -317,6 +326,7 @@ class Attempt:
         self.replay = rng.randrange(1, 1000)
         self.sub = 8 if qos else 0
         self.seq = rng.randrange(4096)
+        self.desc = rng.choice([2, 2, 2, 254])          # RSN or WPA key descriptor
 
     def hdr(self, from_ap):
         self.seq = (self.seq + 1) % 4096
@@ -330,14 +340,14 @@ class Attempt:
         rsn_ie = bytes([0x30, 0x14, 1, 0, 0, 0x0f, 0xac, 4 if self.ccmp else 2, 1, 0, 0, 0x0f, 0xac, 4 if self.ccmp else 2,
                         1, 0, 0, 0x0f, 0xac, 2, 0, 0])
         if n == 1:
-            e = eapol_key(v, v | 0x08 | 0x80, kl, self.replay + replay_inc, self.anonce, b"")
+            e = eapol_key(v, v | 0x08 | 0x80, kl, self.replay + replay_inc, self.anonce, b"", desc=self.desc)
         elif n == 2:
-            e = eapol_key(v, v | 0x08 | 0x100, kl, self.replay + replay_inc, self.snonce, rsn_ie, kck)
+            e = eapol_key(v, v | 0x08 | 0x100, kl, self.replay + replay_inc, self.snonce, rsn_ie, kck, desc=self.desc)
         elif n == 3:
             e = eapol_key(v, v | 0x08 | 0x40 | 0x80 | 0x100 | 0x200 | 0x1000, kl, self.replay + 1 + replay_inc, self.anonce,
-                          rand_bytes(self.rng, 56), kck)
+                          rand_bytes(self.rng, 56), kck, desc=self.desc)
         else:
-            e = eapol_key(v, v | 0x08 | 0x100 | 0x200, kl, self.replay + 1 + replay_inc, bytes(32), b"", kck)
+            e = eapol_key(v, v | 0x08 | 0x100 | 0x200, kl, self.replay + 1 + replay_inc, bytes(32), b"", kck, desc=self.desc)
         return self.hdr(n in (1, 3)) + SNAP_EAPOL + e
 
 
@@ -361,8 +371,12 @@ def handshake_case(rng, B):
     psk = rng.choice([b"Induction", b"password1234", rand_bytes(rng, rng.randint(8, 20))])
     pmk = hashlib.pbkdf2_hmac("sha1", psk, ssid, 4096, 32)
     bssid, staA, staB, other = [rand_bytes(rng, 6) for _ in range(4)]
-    kind = rng.choice(["valid", "valid", "valid", "valid", "restart", "m1-again", "wrong-psk", "missing-m3", "reorder", "no-ap",
-                       "rekey", "rekey"])
+    if rng.random() < 0.25:
+        # station addresses that share a prefix of 5 / 3 / 0 octets with the BSSID, on either side of it
+        staA = bssid[:5] + bytes([bssid[5] ^ rng.choice([1, 0x80])])
+        staB = bssid[:3] + rand_bytes(rng, 3)
+    kind = rng.choice(["valid", "valid", "valid", "restart", "m1-again", "wrong-psk", "missing-m3", "reorder", "no-ap",
+                       "rekey", "rekey", "grammar", "grammar", "grammar", "close-nonces", "bad-mic"])
     two = rng.random() < 0.35
     ops = ["case"]
     evs = []          # (frame bytes, annotation or None)
@@ -408,6 +422,32 @@ def handshake_case(rng, B):
                 for n in (1, 2, 3):
                     seq += [(old.msg(n), None)] * dup()
                 seq += [(old.msg(4), ("learn", old))]
+        if kind == "grammar":
+            # a random word of ( M1+ [ M2+ [ M3+ [ M4+ ] ] ] )* : attempts cut at any stage, every message possibly
+            # retransmitted (message 4 too), attempts that share a replay counter, the pair running the handshake
+            # several times; the keys of the LAST completed attempt are the ones installed
+            last, prev = None, None
+            for _ in range(rng.randint(1, 4)):
+                a = Attempt(rng, bssid, sta, pmk, rng.random() < 0.6, qos=rng.random() < 0.3)
+                if prev is not None and rng.random() < 0.4:
+                    a.replay = prev.replay
+                for n in range(1, rng.choice([1, 2, 3, 4, 4, 4]) + 1):
+                    c = dup()
+                    if n == 4:
+                        seq += [(a.msg(4), ("learn", a) if ap_known else None)] + [(a.msg(4), None)] * (c - 1)
+                        last = a
+                    else:
+                        seq += [(a.msg(n), None)] * c
+                prev = a
+            return seq, (last if ap_known else None)
+        if kind == "close-nonces":
+            # addresses / nonces that agree on a long prefix, or are equal: the Min / Max of the key derivation is decided
+            # by a late octet (or not at all)
+            cut = rng.choice([31, 31, 16, 1, 32])
+            att.snonce = att.anonce[:cut] + (rand_bytes(rng, 32 - cut) if cut < 32 else b"")
+            if rng.random() < 0.3:
+                att.snonce = att.snonce[:-1] + bytes([att.snonce[-1] ^ 0x80]) if cut < 32 else att.snonce
+            att.ptk = prf512(pmk, bssid, sta, att.anonce, att.snonce)
         if kind == "m1-again":
             seq += [(att.msg(1), None), (att.msg(2), None)]
             seq += [(att.msg(1, replay_inc=1), None)]
@@ -421,6 +461,16 @@ def handshake_case(rng, B):
             for n in (1, 2, 3):
                 seq += [(att.msg(n), None)] * dup()
             seq += [(att.msg(4), "nolearn")]
+            return seq, None
+        if kind == "bad-mic":
+            # a complete, well-ordered handshake whose message 4 carries a Key MIC that is wrong in a single octet
+            # (every position, the last one most often): nothing may be learned
+            for n in (1, 2, 3):
+                seq += [(att.msg(n), None)] * dup()
+            m4 = bytearray(att.msg(4))
+            off = len(m4) - (99 - 81) + rng.choice([15, 15, 15, 0, rng.randrange(16)])
+            m4[off] ^= 1 << rng.randrange(8)
+            seq += [(bytes(m4), "nolearn")]
             return seq, None
         if kind == "missing-m3":
             seq += [(att.msg(1), None), (att.msg(2), None), (att.msg(4), None)]
@@ -497,6 +547,69 @@ def handshake_case(rng, B):
             out.append(f"wpa {hx(h + bodies[idx])} @ enc {'ccmp' if att.ccmp else 'tkip'} {hx(att.ptk[32:48])} {hx(pt)} {1 if ok else 0}")
         return out
     B.cases.append(render)
+
+
+def parse_case(rng, B):
+    """the parsers the key learning depends on, fed mostly-valid and malformed input: EAPOL-Key frames whose length
+    fields lie, truncated / extended frames, other descriptor types; beacons whose tagged parameters are cut, run past
+    the end, lack / repeat the SSID, or carry a fourth address"""
+    ssid = rng.choice([b"Coherer", b"", b"x" * 32])
+    psk = b"Induction"
+    pmk = hashlib.pbkdf2_hmac("sha1", psk, ssid, 4096, 32)
+    bssid, sta = rand_bytes(rng, 6), rand_bytes(rng, 6)
+    ops = ["case", f"apdata {hx(psk)} {hx(ssid)} pmk={hx(pmk)}"]
+    # beacons
+    for _ in range(rng.randint(3, 6)):
+        fc1 = rng.choice([0, 0, 0, 3, 1, 2, 0x40])
+        a3 = rng.choice([bssid, rand_bytes(rng, 6)])
+        h = bytes([0x80, fc1, 0, 0]) + b"\xff" * 6 + a3 + a3 + bytes(2) + (rand_bytes(rng, 6) if fc1 & 3 == 3 else b"")
+        fixed = rand_bytes(rng, 12)
+        tags = []
+        for _ in range(rng.randint(0, 4)):
+            tid = rng.choice([0, 0, 1, 3, 48, 221, rng.randrange(256)])
+            data = ssid if tid == 0 and rng.random() < 0.6 else rand_bytes(rng, rng.choice([0, 1, 3, 8, 32, 255]))
+            tags.append(bytes([tid, len(data)]) + data)
+        t = b"".join(tags)
+        k = rng.random()
+        if k < 0.2 and t:
+            t = t[:rng.randrange(len(t))]                         # cut inside an element
+        elif k < 0.3:
+            t += bytes([rng.choice([0, 7])])                      # a lone trailing octet
+        elif k < 0.4:
+            t += bytes([rng.choice([0, 7]), rng.randrange(1, 256)]) + rand_bytes(rng, rng.randrange(0, 3))   # length past the end
+        f = h + fixed + t
+        if rng.random() < 0.15:
+            f = f[:rng.randrange(10, len(h) + 13)]
+        ops.append(f"wpa {hx(f)}")
+    # EAPOL-Key frames
+    att = Attempt(rng, bssid, sta, pmk, rng.random() < 0.6, qos=rng.random() < 0.3)
+    for _ in range(rng.randint(4, 8)):
+        n = rng.choice([1, 2, 3, 4])
+        fr = att.msg(n)
+        hl = 24 + (2 if att.sub else 0) + 8
+        hdr, e = fr[:hl], bytearray(fr[hl:])
+        true_len = len(e) - 4
+        kdl = int.from_bytes(e[97:99], "big")
+        k = rng.random()
+        if k < 0.25:
+            e[2:4] = rng.choice([0, 1, 90, 94, 95, max(0, true_len - 1), true_len + 1, 0xffff]).to_bytes(2, "big")
+        elif k < 0.45:
+            e[97:99] = rng.choice([0, max(0, kdl - 1), kdl + 1, 0xffff]).to_bytes(2, "big")
+        elif k < 0.6:
+            e = e[:rng.randrange(len(e))]
+        elif k < 0.7:
+            extra = rand_bytes(rng, rng.randint(1, 9))
+            if rng.random() < 0.5:
+                e[2:4] = (true_len + len(extra)).to_bytes(2, "big")      # inside the EAPOL length: a trailing RawPDU
+            e += extra
+        elif k < 0.8:
+            e[4] = rng.choice([0, 3, 254, 2, 255])
+        elif k < 0.85:
+            e[1] = rng.choice([0, 1, 4])
+        elif k < 0.92:
+            e[5] ^= 1 << rng.randrange(8); e[6] ^= rng.choice([0x08, 0x40, 0x80, 0x07])     # key information bits
+        ops.append(f"wpa {hx(hdr + bytes(e))}")
+    B.cases.append(lambda bodies: ops)
 
 
 def regression_case(rng, B):
@@ -591,6 +704,36 @@ def michael_case(rng, B):
     B.cases.append(render)
 
 
+def htc_case(rng, B):
+    """KF-C09-8, reproduced on every run: +HTC frames (QoS Data with the Order bit, HT Control field behind the QoS
+    control) protected by the independent encryptors as IEEE 802.11 lays them out — HT Control outside the AAD, Order
+    bit masked — next to the same frames without the HT Control field, which libtins decrypts"""
+    bssid, sta, da = [rand_bytes(rng, 6) for _ in range(3)]
+    ptk = rand_bytes(rng, 80)
+    key = rand_bytes(rng, 13)
+    pt = bytes([0xaa, 0xaa, 3, 0, 0, 0, 0x88, 0xb5]) + rand_bytes(rng, rng.randint(1, 40))
+    qos = rng.randrange(16)
+    seq = rng.randrange(4096)
+    plain = mac_header(8, 1, 0, bssid, sta, da, seq=seq, qos=qos)
+    htc = mac_header(8, 1, 0, bssid, sta, da, seq=seq, qos=qos, order=1, htc=rng.choice([bytes(4), rand_bytes(rng, 4)]))
+    pn = rng.getrandbits(48)
+    ic0 = B.want(f"ccmpenc {hx(ptk[32:48])} {hx(plain)} {pn} 0 {hx(pt)}")
+    ic1 = B.want(f"ccmpenc {hx(ptk[32:48])} {hx(htc)} {pn} 0 {hx(pt)}")
+    it = B.want(f"tkipenc {hx(ptk[32:48])} {hx(ptk[56:64])} {hx(sta)} {hx(da)} {hx(sta)} {qos} {pn} 0 {hx(pt)}")
+    iw = B.want(f"wepenc {hx(key)} {hx(rand_bytes(rng, 3))} 0 {hx(pt)}")
+
+    def render(bodies):
+        ops = []
+        for hdr, tag in ((plain, "plain"), (htc, "htc")):
+            ops += ["case", f"ptk {hx(bssid)} {hx(sta)} {hx(ptk)} 1",
+                    f"wpa {hx(hdr + bodies[ic1 if tag == 'htc' else ic0])} @ enc ccmp {hx(ptk[32:48])} {hx(pt)} 1"]
+            ops += ["case", f"ptk {hx(bssid)} {hx(sta)} {hx(ptk)} 0",
+                    f"wpa {hx(hdr + bodies[it])} @ enc tkip {hx(ptk[32:48])} {hx(pt)} 1"]
+            ops += ["case", f"weppw {hx(bssid)} {hx(key)}", f"wep {hx(hdr + bodies[iw])} @ enc wep {hx(key)} {hx(pt)} 1"]
+        return ops
+    B.cases.append(render)
+
+
 def aes_ops(rng, n):
     ops = ["case", "aes 000102030405060708090a0b0c0d0e0f 00112233445566778899aabbccddeeff"]
     for _ in range(n):
@@ -613,8 +756,12 @@ def gen_ops(rng, tier, exe):
     hostile_case(rng, B, list(range(0, 40)), False, wep=True)
     for i in range(140 if quick else 3500):
         handshake_case(rng, B)
+    for i in range(40 if quick else 1000):
+        parse_case(rng, B)
     for i in range(2 if quick else 20):
         michael_case(rng, B)
+    for i in range(2 if quick else 20):
+        htc_case(rng, B)
     for i in range(3 if quick else 60):
         tag_case(rng, B)
     regression_case(rng, B)
@@ -663,7 +810,8 @@ def frame_facts(op):
     sub = f[0] >> 4
     tods, fromds = f[1] & 1, (f[1] >> 1) & 1
     hl = 24 + (6 if tods and fromds else 0) + (2 if sub > 4 else 0)
-    return {"subtype": sub, "tods": tods, "fromds": fromds, "bodylen": max(0, len(f) - hl)}
+    return {"subtype": sub, "tods": tods, "fromds": fromds, "bodylen": max(0, len(f) - hl),
+            "htc": bool(f[0] & 0x80 and f[1] & 0x80)}
 
 
 def sig_of(kind, detail, case):
@@ -678,6 +826,7 @@ def sig_of(kind, detail, case):
         sig["clause"] = d[1] if len(d) > 1 else ""
         sig["cipher"] = cipher
         if sig["clause"] == "roundtrip":
+            sig["htc"] = bool(ff.get("htc"))
             sig["qos_cf"] = ff.get("subtype") in (9, 10, 11)
             sig["fromds_only"] = bool(ff.get("fromds") and not ff.get("tods"))
     elif kind == "fault":
@@ -713,31 +862,55 @@ def run(chk):
                        "lengths, TKIP, CCMP; to/from-DS, IBSS, 4-address, QoS yes/no, Data+CF subtypes; payload lengths "
                        "0..2300 incl. every residue mod 16), wrong key / wrong cipher, tampered cipher text, tag, IV/PN and "
                        "header fields, masked header bits, protected bodies of every length 0..65 and random up to 2400, "
-                       "truncated headers; distinct_nontrivial counts distinct (frame, result) pairs")
+                       "truncated headers; handshake histories = random words of the grammar (retransmissions, abandoned "
+                       "attempts sharing replay counters, re-handshakes), two pairs interleaved with beacons and data frames, "
+                       "out-of-grammar orders, wrong PSK, close / equal addresses and nonces; malformed EAPOL-Key frames "
+                       "(lying length fields, truncation, extension, other descriptors) and beacons (cut / overlong elements, "
+                       "missing / repeated SSID, fourth address); +HTC frames; distinct_nontrivial counts distinct (frame, "
+                       "result) pairs")
     chk.assumptions += [
         "AES-128, SHA-1, MD5, PBKDF2 are trusted primitives (OpenSSL in libtins and in the reference encryptor; the Lean AES is "
         "validated against OpenSSL on every run; CCMP theorems hold for every block function)",
-        "QoS data frames with the Order bit (HT Control field) are outside the modelled header variants",
+        "add_ap_data with a second PSK for an SSID already registered keeps the first one (std::map::insert): taken as the API",
+        "key descriptor versions other than 1 and 2 (3 = AES-128-CMAC) are outside the key-derivation specification; libtins "
+        "treats them like version 1 (theorem derive_keys_other_versions)",
         "CCMP in-place write (8 bytes behind the read position) is modelled by the bytes written; the scrambled buffer of a "
         "rejected frame is compared by the correspondence",
         "4-address (WDS) WEP frames: the password is looked up under addr3 as libtins defines it",
         "inner PDU parsers below SNAP are a parameter of the model (instantiated for ARP and unknown ether types)",
     ]
     chk.extra["modelled_not_proved"] = [
-        "Dot11Beacon / RSNEAPOL parsing and RSNEAPOL::serialize (model only, tied by correspondence: learned PTKs and "
-        "handshake serialisations are compared)",
-        "deriveKeys: PTK layout (sorted addresses / nonces, counter byte) and the MIC-of-message-4 check are modelled with "
-        "HMAC as a parameter; equality with the IEEE PRF-512 is validated against hashlib by the oracle, not proved",
-        "AES-128, SHA-1, MD5, HMAC in Lean (driver only)",
+        "LLC/SNAP parsing below Dot11Data (snapParse) and the PDUs below SNAP (a parameter of the model) are not tied to the "
+        "wire family by theorems; the Dot11Data / Dot11QoSData header, RSNEAPOL parse / serialize and Dot11Beacon / tagged "
+        "parameters are (data_header_parse_is_wire_model, rsneapol_parse_is_wire_model, rsneapol_serialize_is_wire_model, "
+        "beacon_parse_is_wire_model)",
+        "AES-128, SHA-1, MD5, HMAC, PBKDF2 themselves: parameters of every theorem; the Lean AES / SHA-1 / MD5 / HMAC run "
+        "the driver and the oracle only and are validated against OpenSSL / hashlib on every run",
         "in-place aliasing of the CCMP / RC4 writes (modelled by the bytes written)",
+        "+HTC frames under TKIP / WEP: the known finding KF-C09-8 is stated and refuted for CCMP (ccmp_roundtrip_full); for "
+        "TKIP / WEP it is reproduced by the oracle on every run, not stated as a theorem",
     ]
     chk.extra["proved"] = [
         "crc32 = IEEE CRC-32; RC4 = textbook RC4; WEP/TKIP/CCMP decrypt refine the IEEE decapsulation for all inputs; "
         "round trips for all keys/IV/PN/payloads/header variants (CCMP for every block function); reject-unless-tag-verifies; "
         "no fault / no throw for every protected body; TKIP S-box and key mixing = IEEE; capturer completes every "
         "M1 M2+ M3+ M4 history with arbitrary prefix and interleaving; keys_learned",
+        "derive_keys_is_prf512: for every keyed hash H (20-byte output) and every pair of MIC functions SessionKeys(handshake, "
+        "pmk) = PRF-640(PMK, 'Pairwise key expansion', Min/Max(AA,SPA) || Min/Max(ANonce,SNonce)) with numeric Min/Max (also on "
+        "equal prefixes), counter 0..3, prefixes = PRF-512 / PRF-384, accepted iff the Key MIC (HMAC-MD5 v1 / HMAC-SHA1-128 v2, "
+        "MIC field zeroed, 16 octets) verifies; pmk_is_pbkdf2; message_classes_are_ieee",
+        "handshake_complete_all_histories / keys_after_valid_history / keys_are_last_attempt: for every history accepted by "
+        "the grammar (M1+ [M2+ [M3+ [M4+]]])* per pair — retransmissions, abandoned attempts whatever their replay counters, "
+        "re-handshakes — with beacons, data frames, other pairs' handshakes and non-handshake EAPOL frames interleaved, from "
+        "any capturer state: the capturer hands over exactly the completed attempts and the key-table entry is the session "
+        "keys of the last completed attempt that verifies",
+        "data_header_parse_is_wire_model, rsneapol_parse_is_wire_model, rsneapol_serialize_is_wire_model, "
+        "beacon_parse_is_wire_model: the parsing models under the handshake theorems equal the Wifi wire family's byte-level "
+        "models on every byte string; kdf_source_literals: the literals the translator reads from the source are the model's",
     ]
-    chk.extra["known_finding_theorems"] = {"KF-C09-4": ["tkip_reject_full (def)", "tkip_reject_full_fails", "tkip_reject_partial"]}
+    chk.extra["known_finding_theorems"] = {
+        "KF-C09-4": ["tkip_reject_full (def)", "tkip_reject_full_fails", "tkip_reject_partial"],
+        "KF-C09-8": ["ccmp_roundtrip_full (def)", "ccmp_roundtrip_full_fails", "ccmp_roundtrip_partial"]}
     chk.trusted += ["correspondence harness harness/c09_crypto.cpp, reference encryptors harness/c09_ref.h, generators in checks/C09.py",
                     "translator/gen_c09.py (CRC table, TKIP S-box, guard literals from the source)",
                     "g++ 12 / ASan+UBSan build of the repo's working tree; OpenSSL AES_encrypt"]
